@@ -8,14 +8,18 @@ LEAVES = {
     "big3": ("mk_big::<3>()", 0, "num"),
     "big8": ("mk_big::<8>()", 0, "num"),
     "big9": ("mk_big::<9>()", 0, "num"),
+    "big8x": ("mk_big8_exact()", 0, "num"),
     "atom1": ("mk_atom::<1>()", 1, "atom"),
     "atom2": ("mk_atom::<2>()", 1, "atom"),
     "ref1": ("mk_ref::<1>()", 2, "ref"),
     "ref2": ("mk_ref::<2>()", 2, "ref"),
+    "refl": ("mk_ref_local()", 2, "ref"),
     "extfun": ("mk_extfun()", 3, "fun"),
     "intfun": ("mk_intfun()", 3, "fun"),
     "port": ("mk_port()", 4, "port"),
+    "portl": ("mk_port_local()", 4, "port"),
     "pid": ("mk_pid()", 5, "pid"),
+    "pidl": ("mk_pid_local()", 5, "pid"),
     "tuple0": ("mk_tuple(vec![])", 6, "tuple"),
     "tuple1i": ("mk_tuple(vec![mk_int()])", 6, "tuple"),
     "nil": ("mk_nil()", 8, "list"),
